@@ -221,5 +221,43 @@ pub fn repeat_scan(net: &crate::sim::Net, max_len: usize) -> (usize, Option<serd
             }
         }
     }
+    // Across messages: the pairwise OT instances of one party (towards different peers, and of different
+    // batches) use independent coins, so no high-entropy 16-byte value of one OT message of a party
+    // re-appears in another OT message of the same party (8-byte aligned comparison: all elements of these
+    // messages start at multiples of 8).
+    let mut seen: std::collections::HashMap<(usize, [u8; 16]), (usize, usize)> = std::collections::HashMap::new();
+    for (mi, m) in net.msgs.iter().enumerate() {
+        let b = &m.sent;
+        if b.len() < 32 || b.len() > max_len {
+            continue;
+        }
+        let label = net.label(m.label);
+        if !(label.starts_with("CO_OT") || label.starts_with("ALSZ") || label.starts_with("KOS")) {
+            continue;
+        }
+        let mut off = 0;
+        while off + 16 <= b.len() {
+            let w: [u8; 16] = b[off..off + 16].try_into().unwrap();
+            let mut mask = [0u64; 4];
+            for x in w {
+                mask[(x >> 6) as usize] |= 1u64 << (x & 63);
+            }
+            let distinct: u32 = mask.iter().map(|m| m.count_ones()).sum();
+            if distinct >= 13 {
+                windows += 1;
+                if let Some((pm, poff)) = seen.get(&(m.from, w)).copied() {
+                    if pm != mi {
+                        let o = &net.msgs[pm];
+                        return (windows, Some(serde_json::json!({"kind": "value repeated in two OT messages of one party", "from": m.from,
+                            "first": {"label": net.label(o.label), "occurrence": o.k, "to": o.to, "offset": poff},
+                            "second": {"label": label, "occurrence": m.k, "to": m.to, "offset": off}})));
+                    }
+                } else {
+                    seen.insert((m.from, w), (mi, off));
+                }
+            }
+            off += 8;
+        }
+    }
     (windows, None)
 }
